@@ -64,6 +64,7 @@ type mapIter struct {
 	vals []Value
 	i    int
 	str  Value // for range over string
+	symN int   // decided length of a symbolic string being ranged over
 }
 
 // hashable reports whether v can be used as a Go map key directly (concrete scalar).
